@@ -30,17 +30,17 @@ type Header struct {
 }
 
 type WScenario struct {
-	Class   string
-	Script  []Op
-	WC      int
-	Level   int
-	Hdr     *Header
-	FaultAt int
-	Partial bool
-	Jitter  bool
-	Hold    map[string]time.Duration // hook point -> delay (directed schedules)
+	Class    string
+	Script   []Op
+	WC       int
+	Level    int
+	Hdr      *Header
+	FaultAt  int
+	Partial  bool
+	Jitter   bool
+	Hold     map[string]time.Duration // hook point -> delay (directed schedules)
 	ScriptID int
-	Seed    uint64
+	Seed     uint64
 }
 
 func (o Op) String() string {
@@ -164,4 +164,97 @@ func RunWriter(t *tr.Writer, sc WScenario) ([]byte, *Truth, bool) {
 	}
 	t.Ev("end", tr.M{"digest": sink.Digest(), "scriptId": sc.ScriptID, "gunzip": gz, "failed": sink.Failed})
 	return b, truth, true
+}
+
+// BAMEngine is what RunBAMWriter needs from the caller: the BAM writer calls, so that this
+// package does not import bam.
+type BAMEngine struct {
+	New   func(w io.Writer, wc int) error // bam.NewWriter: writes the header, Flush, Wait
+	Write func(i int) error               // bam.Writer.Write of record i
+	Close func() error
+}
+
+// RunBAMWriter runs a BAM writer over the instrumented sink and records it as the BGZF script
+// it is: NewWriter = Write(header bytes) Flush Wait, Write(rec) = Write(record bytes), Close.
+// flat is the uncompressed BAM stream the calls must produce (from a dry run through the
+// harness's own parser), sizes[0] the header length and sizes[i] the length of record i.
+func RunBAMWriter(t *tr.Writer, class string, eng BAMEngine, flat []byte, sizes []int, wc int, jitter bool, seed uint64) bool {
+	libBase := LibBaseline(Marker + ".")
+	truth := &Truth{Explicit: flat}
+	sink := &Sink{T: t, Truth: truth}
+	if jitter {
+		sink.Jitter = rand.New(rand.NewSource(int64(seed)))
+	}
+	ops := []string{fmt.Sprintf("W%dc", sizes[0]), "F", "Wt"}
+	for _, n := range sizes[1:] {
+		ops = append(ops, fmt.Sprintf("W%dc", n))
+	}
+	ops = append(ops, "C")
+	t.Begin("writer/"+class, tr.M{"wc": wc, "level": -1, "B": bgzf.BlockSize, "faultAt": 0, "partial": false,
+		"script": ops, "scriptId": 0, "hasHdr": false, "hold": []string{}})
+	ret := func(op string, n int, e error, last bool) {
+		m := tr.M{"op": op, "n": n, "err": ErrClass(e, bgzf.ErrClosed)}
+		sb := sink.Bytes()
+		he1, herr1 := bgzf.HasEOF(bytes.NewReader(sb))
+		he2, herr2 := bgzf.HasEOF(io.NewSectionReader(bytes.NewReader(sb), 0, int64(len(sb))))
+		m["haseof"] = []bool{he1 && herr1 == nil, he2 && herr2 == nil}
+		if last {
+			nlib, frames := LibGoroutinesAbove(Marker+".", libBase)
+			m["leak"] = nlib
+			if nlib > 0 {
+				m["frames"] = frames
+			}
+		}
+		sink.LogWithState("ret", m)
+	}
+	// NewWriter: header write, Flush, Wait in one library call
+	t.Ev("call", tr.M{"op": "W", "n": sizes[0]})
+	truth.Claim(sizes[0])
+	var err error
+	res := watch.Call(Marker, func() { err = eng.New(sink, wc) })
+	if res.Res != "ok" {
+		t.Ev("stuck", tr.M{"op": "W", "res": res.Res, "detail": res.Detail, "sig": "writer/" + class + "/new/" + res.Res})
+		return false
+	}
+	if err != nil {
+		t.Ev("abort", tr.M{"sig": "writer/" + class + "/new/err", "res": "err", "err": fmt.Sprint(err)})
+		return false
+	}
+	ret("W", sizes[0], nil, false)
+	t.Ev("call", tr.M{"op": "F"})
+	ret("F", 0, nil, false)
+	t.Ev("call", tr.M{"op": "Wt"})
+	ret("Wt", 0, nil, false)
+	for i := 1; i < len(sizes); i++ {
+		t.Ev("call", tr.M{"op": "W", "n": sizes[i]})
+		truth.Claim(sizes[i])
+		var e error
+		res := watch.Call(Marker, func() { e = eng.Write(i - 1) })
+		if res.Res != "ok" {
+			t.Ev("stuck", tr.M{"op": "W", "res": res.Res, "detail": res.Detail, "sig": "writer/" + class + "/W/" + res.Res})
+			return false
+		}
+		n := sizes[i]
+		if e != nil {
+			n = 0
+		}
+		ret("W", n, e, false)
+	}
+	t.Ev("call", tr.M{"op": "C"})
+	var e error
+	res = watch.Call(Marker, func() { e = eng.Close() })
+	if res.Res != "ok" {
+		t.Ev("stuck", tr.M{"op": "C", "res": res.Res, "detail": res.Detail, "sig": "writer/" + class + "/C/" + res.Res})
+		return false
+	}
+	ret("C", 0, e, true)
+	b := sink.Bytes()
+	gz := false
+	if zr, err := gzip.NewReader(bytes.NewReader(b)); err == nil {
+		if all, err := io.ReadAll(zr); err == nil {
+			gz = string(all) == string(flat) && int64(len(all)) == sink.Decoded
+		}
+	}
+	t.Ev("end", tr.M{"digest": sink.Digest(), "scriptId": 0, "gunzip": gz, "failed": sink.Failed})
+	return true
 }
